@@ -118,6 +118,7 @@ type gcase struct {
 	lElems                   []string
 	lead                     int // 0: single path; 1: after a path without origin; 2: after a path with origin o2
 	split                    int // number of leaf elements carried in the notification prefix
+	originInPath             bool // the leaf's origin travels in the update path, the prefix has none
 }
 
 func mkp(origin string, elems []string) *pb.Path {
@@ -147,7 +148,14 @@ func specContainGNMI() seqmc.Spec {
 											if split > 0 && lead > 0 {
 												continue
 											}
-											cases = append(cases, gcase{tg, po, so, pe, se, lt, lo, le, lead, split})
+											cases = append(cases, gcase{tg, po, so, pe, se, lt, lo, le, lead, split, false})
+										}
+										// the same leaf announced with its origin carried by the
+										// UPDATE PATH under an origin-less prefix: wherever the cache
+										// files that (it indexes by the prefix only), the trie offers
+										// the update where a query finds the leaf
+										if lo != "" && lead == 0 {
+											cases = append(cases, gcase{tg, po, so, pe, se, lt, lo, le, lead, 0, true})
 										}
 									}
 								}
@@ -165,6 +173,10 @@ func specContainGNMI() seqmc.Spec {
 		npre := mkp(g.lOrigin, g.lElems[:g.split])
 		npre.Target = g.lTarget
 		n := &pb.Notification{Timestamp: 1, Prefix: npre, Update: []*pb.Update{{Path: mkp("", g.lElems[g.split:]), Val: &pb.TypedValue{Value: &pb.TypedValue_IntVal{IntVal: 1}}}}}
+		if g.originInPath {
+			npre.Origin = ""
+			n.Update[0].Path.Origin = g.lOrigin
+		}
 		var fed *ctree.Leaf
 		c.SetClient(func(l *ctree.Leaf) { fed = l })
 		if err := c.GnmiUpdate(n); err != nil {
